@@ -29,8 +29,10 @@ ULo == 0   UHi == 40
 \* distance-dependent variant: distances 1, 10, 100 kpc (-8 quarter dex per decade of distance); the tables DEPEND ON THE
 \* APERTURE: the flux inside the radius theta * d_i is AP[i] quarter dex above the flux inside the smallest one, so reading the
 \* table at any other radius than theta * d_i gives another number
-AP == <<0, 1, 2>>
-Lrow(m, i) == [j \in 1..3 |-> Grid[m][j] - 8 * (i - 1) + AP[i]]
+\* the three bands are measured in DIFFERENT apertures (1, 10 and 0.1 arcsec), so each band reads the tables at its own radii:
+\* AP[j][i] = quarter dex of band j at distance i (the tables are flat below the second and above the fourth tabulated radius)
+AP == << <<0, 1, 2>>, <<1, 2, 2>>, <<0, 0, 1>> >>
+Lrow(m, i) == [j \in 1..3 |-> Grid[m][j] - 8 * (i - 1) + AP[j][i]]
 Src == IF cfg.mode = "indep"
        THEN [flag |-> <<1, 4, 1>>, Y |-> [j \in 1..3 |-> Grid[cfg.mp][j] - ((u0 * K[j] + v0) \div 5)], W |-> <<cfg.w, cfg.w, cfg.w>>, P |-> <<0, 0, 0>>]
        ELSE [flag |-> <<1, 4, 1>>, Y |-> [j \in 1..3 |-> Lrow(cfg.mp, cfg.i0)[j] - ((u0 * K[j]) \div 5)], W |-> <<cfg.w, cfg.w, cfg.w>>, P |-> <<0, 0, 0>>]
